@@ -19,8 +19,10 @@ This file contains
     callee can return, `CanRet`), and its table-relative path form `ExposedT`;
  §4 the executable ORACLE: backward reachability (`Base.Reach.coreachable`) in the graph of
     `r`-preserving edges, call summaries computed by Kleene iteration (`iterB`);
- §5 the restricted notion `FlaggedT` (reads the analysis can record by design: the reading
-    instruction has a successor in the control flow graph, reads of a callee lie on a path that returns);
+ §5 the restricted notions `FlaggedT` / `FlaggedX` (reads the analysis records by design: `FlaggedX` =
+    every read performed by an instruction of the function itself — since the repair of
+    `extract_fn_signatures_from_fixpoint` also by instructions without successor — plus the reads of a
+    callee that lie on a path that returns (`FlaggedT` with the can-return target, used for the summaries));
  §6 the MODEL of the register fragment of `function_signature::State`: per node the set of parameter
     registers that still hold their entry-value id (`holds`) and the set of ids whose read flag is set
     (`flags`), as a `Base.Fix.Problem`.
@@ -190,6 +192,19 @@ def FlaggedT (P : FProg) (T : Tables) (f r : Nat) (tgt : Nat → Bool) : Prop :=
 def flaggedB (P : FProg) (T : Tables) (f r : Nat) (tgt : Nat → Bool) : Bool :=
   (coreach (nextR P T f r) (P.size f) (goalR P T f r tgt)).contains 0
 
+/-- `m` reads `r` itself (any instruction, with or without successor), or through the summary of its
+callee when the call has a successor (the callee returns) -/
+def goalX (P : FProg) (T : Tables) (f r m : Nat) : Bool :=
+  (match P.node f m with | some nd => nd.reads.contains r | none => false) ||
+  goalR P T f r (fun _ => true) m
+
+/-- the reads the (repaired) analysis records in the signature of `f` -/
+def FlaggedX (P : FProg) (T : Tables) (f r : Nat) : Prop :=
+  ∃ m, Reach (nextR P T f r) 0 m ∧ goalX P T f r m = true
+
+def flaggedXB (P : FProg) (T : Tables) (f r : Nat) : Bool :=
+  (coreach (nextR P T f r) (P.size f) (goalX P T f r)).contains 0
+
 /-- one round for the restricted notion: `sm[g]` = parameter registers of `g` read in `g` on a path
 that returns (`get_params_of_current_function` of the callee state at the return site) -/
 def roundR (P : FProg) (nregs : Nat) (T : Tables) : Tables :=
@@ -294,6 +309,30 @@ def allFlags (σ : Sol) : Nat := σ.foldl addFlags 0
 def retFlags (P : FProg) (f : Nat) (σ : Sol) : Nat :=
   (List.range (P.size f)).foldl (fun m n =>
     if isRetNode P f n then (match Sol.get σ n with | some s => m ||| s.flags | none => m) else m) 0
+
+/-- registers the instruction itself reads (without the summary of a callee) -/
+def localMask (nd : FNode) : Nat := maskOf (nd.reads ++ nd.extra)
+
+/-- `Context::get_state_after_jump_accesses` + `merge_with_fn_sig_of_state`: the flags of a node state
+after the read accesses of the node's own instruction -/
+def exitFlags (nd : FNode) (s : St) : Nat := s.flags ||| (s.holds &&& localMask nd)
+
+/-- `extract_fn_signatures_from_fixpoint` (after the repair): merge the access patterns of all node
+states and, for every node state, also the accesses of the instruction at that node — so that the
+reads of instructions without successor (return target, indirect jump without known target, call that
+does not return) are part of the signature -/
+def exitFlagsAt (P : FProg) (f n : Nat) (s : St) : Nat :=
+  match P.node f n with
+  | some nd => exitFlags nd s
+  | none => s.flags
+
+def contribX (P : FProg) (f : Nat) (σ : Sol) (n : Nat) : Nat :=
+  match Sol.get σ n with
+  | some s => exitFlagsAt P f n s
+  | none => 0
+
+def allFlagsX (P : FProg) (f : Nat) (σ : Sol) : Nat :=
+  (List.range σ.length).foldl (fun m n => m ||| contribX P f σ n) 0
 
 def maskToList (nregs m : Nat) : List Nat := (List.range nregs).filter (fun i => m.testBit i)
 
